@@ -158,6 +158,38 @@ def judge(case, out, report, stats):
             else:
                 if k != "nack" or c.get("delay_ns", 0) != 0:
                     report("loop-settlement:not-reached", "message %s was never sent but was settled with %s instead of being handed back" % (it["id"], c), detail)
+    # every attempt is recorded with its outcome: one record per send - carrying the message's attempt number, the answered status and the
+    # outcome (and dead reason) of the settlement the answer prescribes -, none for a message that was not sent
+    recs = {}
+    for a in out.get("attempts") or []:
+        recs.setdefault((a["event"], a["attempt"]), []).append(a)
+    stats["attempt_records"] = stats.get("attempt_records", 0) + len(out.get("attempts") or [])
+    cdict = {k: v for k, v in case.items() if not k.startswith("_")}
+    for items in batches:
+        for it in items:
+            m = script[it["id"]]
+            was_sent = sent_leases.get(it["lease"], 0) > 0
+            got = recs.get((it["id"], it["attempt"]), [])
+            detail = {"kind": "request", "case": cdict, "message": it, "attempt_records_for_it": got, "all_attempt_records": (out.get("attempts") or [])[:60],
+                      "sends": out["sends"]}
+            if not was_sent:
+                if got:
+                    report("loop-attempt-record:recorded-without-send", "message %s (attempt %d) was not sent, yet %d attempt record(s) exist for it: %s" %
+                           (it["id"], it["attempt"], len(got), got), detail)
+                continue
+            if len(got) != 1:
+                report("loop-attempt-record:%s" % ("missing" if not got else "recorded-twice"),
+                       "message %s was sent on attempt %d; %d attempt record(s) were written for that send" % (it["id"], it["attempt"], len(got)), detail)
+                continue
+            act = prop_action(KIND_NUM[m["kind"]], m["code"], it["attempt"], mx)
+            want_out = {0: "acked", 1: "retry", 2: "dead", 3: "dead", 4: "dead"}[act]
+            want_reason = {2: "no_retry", 3: "policy_denied", 4: "max_retries"}.get(act, "")
+            g = got[0]
+            if g["outcome"] != want_out or (g.get("reason") or "") != want_reason or (m["kind"] == "status" and g["status"] != m["code"]) or \
+                    g["has_err"] != (m["kind"] != "status"):
+                report("loop-attempt-record:wrong-outcome:%s" % want_out,
+                       "message %s (attempt %d, answer %s/%s, retry.max %d) was recorded as %s; the settlement the answer prescribes is recorded as outcome %s "
+                       "reason %r with the answered status" % (it["id"], it["attempt"], m["kind"], m["code"], mx, g, want_out, want_reason), detail)
     # a run to quiescence: every message of the route that the route's targets cover has been leased (and hence settled) at least once
     if case["stop_at"] < 0:
         leased_ids = {it["id"] for items in batches for it in items}
@@ -186,6 +218,7 @@ def run(ctx, H, rng, tier, model_ok, report):
         return stats, None
     outs = json.loads(out)["cases"]
     terms, meta = [], []
+    rterms, rmeta = [], []
     for case, o in zip(cases, outs):
         res = judge(case, o, report, stats)
         if not res:
@@ -207,6 +240,16 @@ def run(ctx, H, rng, tier, model_ok, report):
             for it in items:
                 m = script[it["id"]]
                 xs.append("(%d, %d, %s, (%d, %d))" % (lease_no[it["lease"]], it["attempt"], "true" if m["target"] >= 0 else "false", KIND_NUM[m["kind"]], m["code"]))
+            order = {(a["event"], a["attempt"]): i for i, a in enumerate(o.get("attempts") or [])}
+            impl_recs = []
+            for it in sorted((it for it in items if (it["id"], it["attempt"]) in order), key=lambda it: order[(it["id"], it["attempt"])]):
+                a = (o.get("attempts") or [])[order[(it["id"], it["attempt"])]]
+                m = script[it["id"]]
+                impl_recs.append([lease_no[it["lease"]], a["attempt"], {"retry": 1, "acked": 2, "dead": 3}.get(a["outcome"], 9), REASONS.get(a.get("reason") or "", 0),
+                                  a["status"] if m["kind"] == "status" else 0])
+            for s in cands:
+                rterms.append("((%d, %d, %d), %d, [%s])" % (case["retry_max"], case["base_ns"], case["cap_ns"], s, "; ".join(xs)))
+                rmeta.append((case, o, items, impl_recs, s))
             for s in cands:
                 terms.append("((%d, %d, %d), %s, %s, %d, %d, [%s])" % (case["retry_max"], case["base_ns"], case["cap_ns"], "true" if use_batch else "false",
                                                                      "true" if case["batch_store"] else "false", o["mutation_batch"], s, "; ".join(xs)))
@@ -234,4 +277,25 @@ def run(ctx, H, rng, tier, model_ok, report):
                        (e["impl"], e["models"]),
                        {"kind": "request", "case": {k: v for k, v in e["case"].items() if not k.startswith("_")}, "items": e["items"],
                         "implementation_calls": e["impl"], "model_calls_by_stop_index": e["models"], "all_calls": e["out"]["calls"], "sends": e["out"]["sends"]})
+    # the attempt records of every micro-batch against Model/PushLoop.v run_records
+    rres = None
+    if model_ok and rterms:
+        rres, log = fpq.coq_map_eval(ctx, "c06looprecs", DEFS, "records_case", rterms)
+        if rres is None:
+            ctx.notes.append("model evaluation c06looprecs failed: %s" % log[-600:])
+    if rres is not None:
+        by_batch = {}
+        for (case, o, items, impl_recs, s), rows in zip(rmeta, rres):
+            e = by_batch.setdefault(id(items), {"case": case, "items": items, "impl": impl_recs, "models": [], "out": o})
+            e["models"].append((s, [list(r) for r in rows]))
+        stats["model_record_batches"] = len(by_batch)
+        for e in by_batch.values():
+            if not any(m == e["impl"] for _, m in e["models"]):
+                stats["model_mismatches"] += 1
+                report("loop-model:records-differ",
+                       "the attempt records the dispatcher wrote for one micro-batch are not the ones Model/PushLoop.v run_records gives for any stop index "
+                       "consistent with the messages that were sent (records as lease number, attempt, outcome 1 retry 2 acked 3 dead, reason, status): "
+                       "implementation %s, model %s" % (e["impl"], e["models"]),
+                       {"kind": "request", "case": {k: v for k, v in e["case"].items() if not k.startswith("_")}, "items": e["items"],
+                        "implementation_records": e["impl"], "model_records_by_stop_index": e["models"], "all_attempt_records": (e["out"].get("attempts") or [])[:60]})
     return stats, mres
